@@ -71,8 +71,17 @@ def weights(ops, shift=0):
     return [ALPH[(i + shift) % len(ALPH)] for i in range(len(ops))]
 
 
-def lib(ops, W):
-    return fsm.build(WFSA, Float, ops, [float(w) for w in W])
+def lib(ops, W, names=None):
+    return fsm.build(WFSA, Float, ops, [float(w) for w in W], names=names)
+
+
+NAME_CONFIGS = [
+    ("negative-ints", {0: -1, 1: 1, 2: -2}),
+    ("swapped", {0: 1, 1: 0, 2: 2}),
+    ("large-ints", {0: 7, 1: 3, 2: 100}),
+    ("tuples", {0: ("q", 0), 1: ("q", 1), 2: ("q", 2)}),
+    ("mixed", {0: "a", 1: 0, 2: ()}),
+]
 
 
 def flatten(w):
@@ -177,6 +186,27 @@ def run_mut(case):
     # A vs A (reflexivity) and A vs mutations
     e, s = compare(ops, W, ops, W, inp0, fails, "A,A")
     evals += e
+    # state-name configurations: renaming the states never changes the verdicts
+    for cname, names in NAME_CONFIGS:
+        a = lib(ops, W, names)
+        b = lib(ops, W)
+        ce = guarded(lambda: a.counterexample(b))
+        evals += 1
+        if ce is not None:
+            fails.append(_fail("equivalence test is independent of the state names", dict(inp0, names=cname), ce, None))
+        mn = guarded(lambda: lib(ops, W, names).min)
+        if isinstance(mn, str):
+            fails.append(_fail("min: returns an automaton (any state names)", dict(inp0, names=cname), mn, "automaton"))
+        else:
+            ce2 = guarded(lambda: lib(ops, W).counterexample(mn))
+            if ce2 is not None:
+                fails.append(_fail("min is equivalent to its input (any state names)", dict(inp0, names=cname), ce2, None))
+        for x in strings_upto(alphabet, 2):
+            hv = guarded(lambda: a(x))
+            wv = mat_weight(mA, x)
+            if isinstance(hv, str) or abs(float(hv) - float(wv)) > 1e-9 * max(1.0, abs(float(wv))):
+                fails.append(_fail("string weight is independent of the state names", dict(inp0, names=cname, x=list(x)), hv, wv))
+                break
     for what, o2, W2 in mutations(ops, labels, case["nstates"]):
         e, s = compare(ops, W, o2, list(W2), dict(inp0, mutation=what), fails, "A,mutant")
         evals += e
